@@ -9,6 +9,12 @@
 
 mod util;
 mod report;
+mod gen;
+mod model;
+mod ctx;
+mod windows;
+mod features;
+mod evalx;
 mod props;
 
 use report::Outcome;
@@ -46,6 +52,16 @@ fn main() {
         usage();
     }
     let prop = args[1].to_uppercase();
+    if prop == "_FILTER" {
+        // keep the stdin lines the real parser accepts (used once to build data/corpus.txt)
+        use std::io::BufRead;
+        for line in std::io::stdin().lock().lines().map_while(Result::ok) {
+            if util::catch(|| opening_hours_syntax::parse(&line)).map(|r| r.is_ok()).unwrap_or(false) {
+                println!("{line}");
+            }
+        }
+        return;
+    }
     let mut tier = Tier::Quick;
     let mut out: Option<String> = None;
     let mut seed = 0u64;
